@@ -463,7 +463,7 @@ func (caller reqWriteCaller) Call(s *slip.Scope, args slip.List, depth int) slip
 		}
 	default:
 		if dest == slip.True {
-			w := s.Get(slip.Symbol("*standard-output*")).(io.Writer)
+			w := s.WriterVar("*standard-output*", depth)
 			if err := (obj.Any.(*http.Request)).Write(w); err != nil {
 				panic(err)
 			}
